@@ -17,7 +17,7 @@ pub enum B1 {
     #[regex(r"[0-9]+\.[0-9]+")] Float,
 }
 pub static B1_DEF: Def = Def {
-    name: "B1", utf8: false, decide: no_callbacks,
+    name: "B1", utf8: false, decide: no_callbacks, log_callbacks: false, default_err: plain_default,
     pats: &[
         Pat { p: P::Lit(b"if"), prio: 4, act: Act::Tok(1) },
         Pat { p: P::Lit(b"ifx"), prio: 6, act: Act::Tok(2) },
@@ -26,7 +26,7 @@ pub static B1_DEF: Def = Def {
         Pat { p: P::Cat(&[P::Plus(&DIGIT), P::Lit(b"."), P::Plus(&DIGIT)]), prio: 6, act: Act::Tok(5) },
     ],
 };
-corpus_impl!(B1, bytes, B1_DEF, |t| match t { B1::If => 1, B1::Ifx => 2, B1::Ident => 3, B1::Int => 4, B1::Float => 5 }, |_e| 0, |_x| (0, true));
+corpus_impl!(B1, bytes, B1_DEF, |t| match t { B1::If => 1, B1::Ifx => 2, B1::Ident => 3, B1::Int => 4, B1::Float => 5 }, |_e| 0, |_x| (0, true, 0, 0));
 
 // ---- B2: literal chain a / ab / abc / a+ with an explicit priority
 #[derive(Logos, Debug, PartialEq, Clone, Copy)]
@@ -39,7 +39,7 @@ pub enum B2 {
     #[regex("[b-d]")] Bcd,
 }
 pub static B2_DEF: Def = Def {
-    name: "B2", utf8: false, decide: no_callbacks,
+    name: "B2", utf8: false, decide: no_callbacks, log_callbacks: false, default_err: plain_default,
     pats: &[
         Pat { p: P::Lit(b"a"), prio: 2, act: Act::Tok(1) },
         Pat { p: P::Lit(b"ab"), prio: 4, act: Act::Tok(2) },
@@ -48,7 +48,7 @@ pub static B2_DEF: Def = Def {
         Pat { p: P::Class(&[(b'b', b'd')]), prio: 2, act: Act::Tok(5) },
     ],
 };
-corpus_impl!(B2, bytes, B2_DEF, |t| match t { B2::A => 1, B2::Ab => 2, B2::Abc => 3, B2::As => 4, B2::Bcd => 5 }, |_e| 0, |_x| (0, true));
+corpus_impl!(B2, bytes, B2_DEF, |t| match t { B2::A => 1, B2::Ab => 2, B2::Abc => 3, B2::As => 4, B2::Bcd => 5 }, |_e| 0, |_x| (0, true, 0, 0));
 
 // ---- B3: early / late accept shapes: a*b, ab?c, quoted string, two-byte "x<any byte>"
 #[derive(Logos, Debug, PartialEq, Clone, Copy)]
@@ -62,7 +62,7 @@ pub enum B3 {
 }
 const NOT_QUOTE: P = P::Alt(&[P::Class(&[(0x00, 0x21), (0x23, 0x7F)]), NON_ASCII_CHAR]);
 pub static B3_DEF: Def = Def {
-    name: "B3", utf8: false, decide: no_callbacks,
+    name: "B3", utf8: false, decide: no_callbacks, log_callbacks: false, default_err: plain_default,
     pats: &[
         Pat { p: P::Cat(&[P::Star(&P::Lit(b"a")), P::Lit(b"b")]), prio: 2, act: Act::Tok(1) },
         Pat { p: P::Cat(&[P::Lit(b"a"), P::Opt(&P::Lit(b"b")), P::Lit(b"c")]), prio: 4, act: Act::Tok(2) },
@@ -71,7 +71,7 @@ pub static B3_DEF: Def = Def {
         Pat { p: P::Lit(b"aa"), prio: 4, act: Act::Tok(5) },
     ],
 };
-corpus_impl!(B3, bytes, B3_DEF, |t| match t { B3::AsB => 1, B3::AbC => 2, B3::Str => 3, B3::XAny => 4, B3::Aa => 5 }, |_e| 0, |_x| (0, true));
+corpus_impl!(B3, bytes, B3_DEF, |t| match t { B3::AsB => 1, B3::AbC => 2, B3::Str => 3, B3::XAny => 4, B3::Aa => 5 }, |_e| 0, |_x| (0, true, 0, 0));
 
 // ---- B4: class rendering: comparison chains with holes, LUT classes, single bytes (byte-only classes)
 #[derive(Logos, Debug, PartialEq, Clone, Copy)]
@@ -85,7 +85,7 @@ pub enum B4 {
     #[regex("(?-u)[!-/][!-/]")] Punct2,
 }
 pub static B4_DEF: Def = Def {
-    name: "B4", utf8: false, decide: no_callbacks,
+    name: "B4", utf8: false, decide: no_callbacks, log_callbacks: false, default_err: plain_default,
     pats: &[
         Pat { p: P::Class(&[(b'0', b'3'), (b'5', b'9')]), prio: 2, act: Act::Tok(1) },
         Pat { p: P::Class(&[(b'a', b'c'), (b'x', b'z')]), prio: 2, act: Act::Tok(2) },
@@ -95,7 +95,7 @@ pub static B4_DEF: Def = Def {
         Pat { p: P::Cat(&[P::Class(&[(b'!', b'/')]), P::Class(&[(b'!', b'/')])]), prio: 4, act: Act::Tok(6) },
     ],
 };
-corpus_impl!(B4, bytes, B4_DEF, |t| match t { B4::DigitNot4 => 1, B4::AbcXyz => 2, B4::Holes => 3, B4::High => 4, B4::Four => 5, B4::Punct2 => 6 }, |_e| 0, |_x| (0, true));
+corpus_impl!(B4, bytes, B4_DEF, |t| match t { B4::DigitNot4 => 1, B4::AbcXyz => 2, B4::Holes => 3, B4::High => 4, B4::Four => 5, B4::Punct2 => 6 }, |_e| 0, |_x| (0, true, 0, 0));
 
 // ---- B5: unrolled self-loop (8-byte batch) next to a non-loop: cheap enough for inputs of 7..10 bytes
 #[derive(Logos, Debug, PartialEq, Clone, Copy)]
@@ -105,13 +105,13 @@ pub enum B5 {
     #[token("-")] Dash,
 }
 pub static B5_DEF: Def = Def {
-    name: "B5", utf8: false, decide: no_callbacks,
+    name: "B5", utf8: false, decide: no_callbacks, log_callbacks: false, default_err: plain_default,
     pats: &[
         Pat { p: P::Plus(&LOWER), prio: 2, act: Act::Tok(1) },
         Pat { p: P::Lit(b"-"), prio: 2, act: Act::Tok(2) },
     ],
 };
-corpus_impl!(B5, bytes, B5_DEF, |t| match t { B5::Word => 1, B5::Dash => 2 }, |_e| 0, |_x| (0, true));
+corpus_impl!(B5, bytes, B5_DEF, |t| match t { B5::Word => 1, B5::Dash => 2 }, |_e| 0, |_x| (0, true, 0, 0));
 
 // ---- E1: error shapes: literals sharing prefixes, a bracketed number; no pattern matches a proper prefix of another
 #[derive(Logos, Debug, PartialEq, Clone, Copy)]
@@ -123,7 +123,7 @@ pub enum E1 {
     #[token("abcde")] Abcde,
 }
 pub static E1_DEF: Def = Def {
-    name: "E1", utf8: false, decide: no_callbacks,
+    name: "E1", utf8: false, decide: no_callbacks, log_callbacks: false, default_err: plain_default,
     pats: &[
         Pat { p: P::Lit(b"abc"), prio: 6, act: Act::Tok(1) },
         Pat { p: P::Lit(b"abd"), prio: 6, act: Act::Tok(2) },
@@ -131,4 +131,4 @@ pub static E1_DEF: Def = Def {
         Pat { p: P::Lit(b"abcde"), prio: 10, act: Act::Tok(4) },
     ],
 };
-corpus_impl!(E1, bytes, E1_DEF, |t| match t { E1::Abc => 1, E1::Abd => 2, E1::Num => 3, E1::Abcde => 4 }, |_e| 0, |_x| (0, true));
+corpus_impl!(E1, bytes, E1_DEF, |t| match t { E1::Abc => 1, E1::Abd => 2, E1::Num => 3, E1::Abcde => 4 }, |_e| 0, |_x| (0, true, 0, 0));
